@@ -74,6 +74,19 @@ def sample_part(ck, tier):
                 ck.violation("samples follow the within-cell inverse CDF (1 - d) t + d t^2 = u of the linear density",
                              {**ident, "cell": draws[bad]["i"], "u": fake.us[bad], "want": wants[bad], "got": got[bad] if got.shape == wants.shape else None},
                              site="piecewise_linear_sample:transform")
+            # the same table on a grid of nanometre size (x * 2^-40: exact, cell widths far below 1e-8): the same cells, the samples rescaled
+            fake.weights = None
+            sc_ = 2.0 ** -40
+            try:
+                with np.errstate(all="ignore"):
+                    got_s = np.asarray(CM.piecewise_linear_sample(x * sc_, p / sc_, len(draws)), dtype=float)
+                if fake.weights is None or fake.weights.shape != wantm.shape or not np.allclose(fake.weights, wantm, rtol=1e-12, atol=1e-15) \
+                        or got_s.shape != wants.shape or not np.all(np.abs(got_s / sc_ - wants) <= 1e-9 * width):
+                    ck.violation("cell probabilities and samples of a table on a very fine grid (widths ~1e-12) = those of the same table at unit scale, rescaled",
+                                 {**ident, "scale": sc_, "want_masses": wantm, "got_masses": fake.weights}, site="piecewise_linear_sample:scale")
+            except Exception as ex:
+                ck.violation("piecewise_linear_sample raised on an ascending grid and non-negative table", {**ident, "scale": sc_, "error": repr(ex)},
+                             site="piecewise_linear_sample")
             if len(ck.samples) < 2 and len(x) == maxc + 1 and 0.0 in p:
                 ck.sample({**ident, "spec_masses": wantm.tolist(), "draw": {"cell": draws[0]["i"], "u": fake.us[0], "spec_sample": wants[0]}})
     finally:
